@@ -28,7 +28,7 @@ def run(ctx):
     if ctx.thorough:
         ctx.tlc_mc(fam, "Bitmap", "Bitmap_MC_big.cfg", workers=16, timeout=3000, heap="8g")
     # 2. plans out of the spec (real geometry)
-    pdir, plans = ctx.tlc_plans(fam, "Bitmap_Gen", "Bitmap_Gen.cfg", num=ctx.q(50, 800), depth=15,
+    pdir, plans = ctx.tlc_plans(fam, "Bitmap_Gen", "Bitmap_Gen.cfg", num=ctx.q(50, 600), depth=15,
                                 timeout=1500)
     # 3. execute on the real code
     binary = ctx.go_build("c08")
@@ -40,9 +40,9 @@ def run(ctx):
         ctx.harness(binary, ["-cold", "-out", cf, "-seed", ctx.seed * 100 + i], traces=[cf])
         cold.append(cf)
     ctx.harness(binary, ["-plans", pdir, "-out", out, "-seed", ctx.seed,
-                         "-shapes", ctx.q(10, 120), "-words", ctx.q(40, 1500),
+                         "-shapes", ctx.q(10, 120), "-words", ctx.q(40, 1000),
                          "-hist", ctx.q(20, 300), "-ops", ctx.q(40, 60), "-per", ctx.q(1, 2),
-                         "-race", ctx.q(6, 60)],
+                         "-race", ctx.q(6, 40)],
                 traces=[out])
     # 4. validate what the real code did
     traces = []
